@@ -88,6 +88,9 @@ def _run_job(i):
     try:
         if kind == "mapper":
             return verify.verify_mapper_method(contract, arg, _SPECS, hooks=hooks)
+        if kind == "mapperv":
+            k, vn, v = arg
+            return verify.verify_mapper_method(contract, k, _SPECS, hooks=hooks, variant=v, variant_name=vn)
         if kind == "function":
             return verify.verify_function(contract, _SPECS, hooks=hooks)
         if kind == "custom":
@@ -313,6 +316,8 @@ def job_name(j):
     n = getattr(contract, "name", getattr(contract, "__name__", str(contract)))
     if kind == "mapper":
         return f"{n}[{getattr(arg, '__name__', arg)}]"
+    if kind == "mapperv":
+        return f"{n}[{getattr(arg[0], '__name__', arg[0])}]{arg[1]}"
     return n
 
 
